@@ -1,10 +1,10 @@
 #!/bin/bash
-# verify_seed_auto.sh <ID> : verify both seeds of /tmp/seed/<ID>/{1,2} in /tmp/wt/<ID> (placement parsed from README)
-ID=$1
+# verify_seed_auto.sh <seed ID dir name under /tmp/seed> [worktree ID] : verify both seeds (placement parsed from README)
+ID=$1; WT=${2:-$1}
 for n in 1 2; do
   S=/tmp/seed/$ID/$n
   P=$(grep -oE "crates/[a-z0-9_]+/(tests|examples)/[A-Za-z0-9_]+\.rs" $S/README.md | head -1)
   CR=$(echo $P | cut -d/ -f2); T=$(basename $P .rs)
   echo "== $ID/$n ($P)"
-  /verif/tools/verify_seed.sh $S /tmp/wt/$ID $CR $T
+  /verif/tools/verify_seed.sh $S /tmp/wt/$WT $CR $T
 done
